@@ -744,6 +744,8 @@ Inductive sfrag (rw : regwidth) (IM : string -> bool) :
 | sf_decl0 D V ts sg w x :                            (* T x;  for a fresh name: declared, no value yet *)
     decl_ty ts sg w -> lookup x D = None -> ~ reserved IM x ->
     sfrag rw IM D V (SDecl ts x None) (D ++ [(x, Some (ty_int sg w))]) V
+| sf_expr_imm D V l :                                  (* (uiV);  an immediate as expression statement (QEMU's fIMMEXT(uiV)): declares it *)
+    IM l = true -> sfrag rw IM D V (SExpr (EOp (OImm l))) D V
 | sf_empty D V : sfrag rw IM D V SEmpty D V              (* ; *)
 | sf_nop D V : sfrag rw IM D V SNop D V
 | sf_cancel D V : sfrag rw IM D V SCancel D V           (* cancel_slot;  (CSem prescribes no result for it: see sinv_cancel) *)
@@ -1033,7 +1035,7 @@ Section StmtCorrect.
   Proof. reflexivity. Qed.
 
   (* ------------------------------------------------------------------ the invariant *)
-  Definition plain_item (i : item) : Prop := match i with IEff _ | IAsg _ _ | IVoid _ => True | _ => False end.
+  Definition plain_item (i : item) : Prop := match i with IEff _ | IAsg _ _ | IVoid _ | IPure _ => True | _ => False end.
   (* the items of a loop-free statement mention no temporary *)
   Definition pitem (nl : bool) (i : item) : Prop := plain_item i /\ (nl = true -> item_tmps i = []).
   Lemma pitem_plain nl items : Forall (pitem nl) items -> Forall plain_item items.
@@ -2480,6 +2482,37 @@ Section StmtCorrect.
       + left. apply Hj.
   Qed.
 
+  (* ------------------------------------------------------------------ (uiV);   an immediate as expression statement *)
+  (* the statement emits nothing; it registers the immediate (variable + prologue entry) when it is its first use *)
+  Lemma lower_imm_nonempty l st pv st2 : lower_expr cfg (EOp (OImm l)) st = OK (IPure pv, st2) -> started st -> st_nonempty st2 = true.
+  Proof.
+    cbn [lower_expr lower_operand]. unfold bind, get. intros H Hs.
+    destruct (lookup l (st_vars st)) as [[t|]|] eqn:El.
+    - injection H as _ <-. destruct Hs as [Hs | [Hv _]]; [exact Hs|]. rewrite Hv in El. discriminate El.
+    - discriminate H.
+    - unfold put, ret in H. injection H as _ <-. reflexivity.
+  Qed.
+
+  Lemma sinv_expr_imm D V l : IM l = true -> SInv D V (SExpr (EOp (OImm l))) D V.
+  Proof.
+    intros Hl st Hext Hok Hp.
+    destruct (expr_sim_ext V D (EOp (OImm l)) st (pf_imm rw IM V l Hl) Hext Hok) as [pv [st2 [L2 [X2 [Hok2 [G2 Hsem]]]]]].
+    exists [IPure pv], st2.
+    split. { rewrite lower_stmt_expr. unfold bind. rewrite L2. reflexivity. }
+    split; [|exact (lower_imm_nonempty l st pv st2 L2)].
+    split; [exact Hok2|]. split; [exact X2|].
+    split. { constructor; [|constructor]. split; [exact I|]. intros _. cbn [item_tmps]. exact (goodpv_tmps pv G2). }
+    intros HR Hrem HJ cs ms fuel cs' Hrel Himm Hce.
+    pose proof Hrel as [Hrel0 [_ [_ [Hret _]]]].
+    destruct (Hsem st2 (st_ext_refl st2) HR Hrem HJ cs ms Hrel0 Himm) as [ilv [Sv Hcv]].
+    destruct fuel as [|k]; [rewrite cexec_0 in Hce; discriminate Hce|].
+    rewrite cexec_expr in Hce by exact Hret.
+    destruct (ceval E csub xi k cs (EOp (OImm l))) as [[s1 vr]|] eqn:Ee; [|discriminate Hce].
+    destruct (Hcv k s1 vr Ee) as [-> _]. cbn [option_map fst] in Hce. injection Hce as <-.
+    exists ms. split; [|split; [exact Hrel | exact Himm]].
+    cbn [flat_map item_effects app seqn fin_eff]. apply runs_empty. reflexivity.
+  Qed.
+
   (* ------------------------------------------------------------------ sequences and blocks *)
   Lemma post_cex D V D' V' nl st st' items (cex cex' : nat -> cstate -> option cstate) :
     (forall fuel cs cs', cex' fuel cs = Some cs' -> exists fuel', cex fuel' cs = Some cs') ->
@@ -2555,8 +2588,8 @@ Section StmtCorrect.
   Proof.
     intros H. unfold mk_sequence. cbn [fst le_tmps]. induction H as [|i l [Hi Ht] _ IH]; [reflexivity|].
     cbn [flat_map]. apply app_eq_nil in IH. destruct IH as [IH1 IH2]. rewrite IH1, IH2.
-    specialize (Ht eq_refl). destruct i; try contradiction Hi; cbn [item_tmps] in Ht; cbn [app];
-      rewrite ?Ht; destruct (le_empty e); reflexivity.
+    specialize (Ht eq_refl). destruct i as [p | | e | e | e | |]; try contradiction Hi; cbn [item_tmps] in Ht; cbn [app item_tmps];
+      rewrite ?Ht; try destruct (le_empty e); reflexivity.
   Qed.
   (* the sequence of a statement's items passes chk_hybrid_dep unchanged: nothing is pending, or (in a loop body) the
      items mention no temporary *)
@@ -2794,12 +2827,13 @@ Section StmtCorrect.
     assert (E2 : flat_map (fun i => match i with IEff _ | IVoid _ | IAsg _ _ => [] | _ => item_tmps i end) (ib ++ [IPure hp]) = pv_tmps hp).
     { rewrite flat_map_app. cbn [flat_map item_tmps]. rewrite app_nil_r.
       assert (E0 : flat_map (fun i => match i with IEff _ | IVoid _ | IAsg _ _ => [] | _ => item_tmps i end) ib = []).
-      { clear E1. induction H as [|i l [Hi _] _ IH]; [reflexivity|]. cbn [flat_map]. rewrite IH. destruct i; try contradiction Hi; reflexivity. }
+      { clear E1. induction H as [|i l [Hi Ht] _ IH]; [reflexivity|]. cbn [flat_map]. rewrite IH. specialize (Ht eq_refl).
+        destruct i; try contradiction Hi; cbn [item_tmps] in Ht; cbn [item_tmps]; rewrite ?Ht; reflexivity. }
       rewrite E0. reflexivity. }
     assert (E3 : flat_map (fun i => match i with IEff e | IVoid e | IAsg e _ => if le_empty e then [] else le_tmps e | _ => [] end) (ib ++ [IPure hp]) = []).
     { rewrite flat_map_app. cbn [flat_map]. rewrite app_nil_r. clear E1 E2.
       induction H as [|i l [Hi Ht] _ IH]; [reflexivity|]. cbn [flat_map]. rewrite IH. specialize (Ht eq_refl).
-      destruct i; try contradiction Hi; cbn [item_tmps] in Ht; rewrite ?Ht; destruct (le_empty e); reflexivity. }
+      destruct i as [p | | e | e | e | |]; try contradiction Hi; cbn [item_tmps] in Ht; rewrite ?Ht; try destruct (le_empty e); reflexivity. }
     assert (E4 : existsb (fun i => match i with ITree _ => true | _ => false end) (ib ++ [IPure hp]) = false).
     { rewrite existsb_app. cbn [existsb]. rewrite !orb_false_r.
       clear E1 E2 E3. induction H as [|i l [Hi _] _ IH]; [reflexivity|]. cbn [existsb]. rewrite IH. destruct i; try contradiction Hi; reflexivity. }
@@ -3029,6 +3063,7 @@ Section StmtCorrect.
     - intros. apply (sinv_sasg_reg D V a cls letters acc e); assumption.
     - intros. apply sinv_decl; assumption.
     - intros. apply sinv_decl0; assumption.
+    - intros. apply sinv_expr_imm; assumption.
     - intros. apply sinv_empty.
     - intros. apply sinv_nop.
     - intros. apply sinv_cancel.
